@@ -3,7 +3,72 @@ exactly the frozen branch facts (structural, name-free).  The frozen instances a
 import re
 from mir import callee_of, op_local
 from panics import sdesc_operand, sdesc_place, sdesc_rv, skey_call
-from errguard import structural_facts, canon_fact
+from errguard import structural_facts as _definite_facts, disjunctive_facts, canon_fact
+
+
+_CTX = {'F': None, 'cg': None, 'depth': 0}
+
+
+def _ok_facts_of_helper(F, cg, fn):
+    """facts that hold on every `Ok(..)` return of fn (intersection over its Ok returns)"""
+    B = cg.body(fn)
+    sets = []
+    for i, j, st in B.assigns():
+        if st['place']['l'] == 0 and not st['place']['p'] and st['rv']['k'] == 'aggregate' and st['rv'].get('variant') == 'Ok':
+            sets.append({(d, v) for d, v in structural_facts(B, i)})
+    for i, t in B.calls():
+        if t['dest']['l'] == 0 and not t['dest']['p'] and (callee_of(t) or '').split('::')[-1] != 'from_residual':
+            return set()          # returns some callee's Result unchanged: nothing known
+    return set.intersection(*sets) if sets else set()
+
+
+def imported_facts(B, bb):
+    """a validation moved into a helper that did not exist in the confirmed tree still guards what follows `helper(..)?`: the facts that hold on every Ok return
+    of the helper (its parameters replaced by the actual arguments) are facts of the sites dominated by the Continue edge"""
+    F, cg = _CTX['F'], _CTX['cg']
+    if F is None or _CTX['depth'] > 1:
+        return []
+    out = []
+    for d in sorted(B.dom[bb]):
+        if d == bb:
+            continue
+        t = B.term(d)
+        if t['k'] != 'switch' or t['discr']['k'] not in ('copy', 'move'):
+            continue
+        dl = op_local(t['discr'])
+        src = None
+        for st in B.blocks[d]['stmts']:
+            if st['k'] == 'assign' and st['place']['l'] == dl and st['rv']['k'] == 'discr':
+                src = st['rv']['place']
+        if src is None or src['p']:
+            continue
+        ds = B.whole_defs(src['l'])
+        if len(ds) != 1 or ds[0][0] != 'call' or not (callee_of(ds[0][3]) or '').endswith('Try>::branch'):
+            continue
+        cont = [tb for v, tb in t['targets'] if v == '0']
+        if not cont or not B.dominates(cont[0], bb) or B.preds[cont[0]] != [d]:
+            continue
+        al = op_local(ds[0][3]['args'][0])
+        ads = B.whole_defs(al) if al is not None else []
+        if len(ads) != 1 or ads[0][0] != 'call':
+            continue
+        ht = ads[0][3]
+        c = ht.get('resolved') or ht.get('callee') or callee_of(ht) or ''
+        if not inline.is_new_helper(F, c):
+            continue
+        amap = {k + 1: sdesc_operand(B, a) for k, a in enumerate(ht['args'])}
+        _CTX['depth'] += 1
+        try:
+            for dsc, v in _ok_facts_of_helper(F, cg, c):
+                out.append((inline.subst(dsc, amap), v))
+        finally:
+            _CTX['depth'] -= 1
+    return out
+
+
+def structural_facts(B, bb):
+    """dominance facts, the `a || b` alternatives on the way to bb, and the facts imported from new validation helpers"""
+    return _definite_facts(B, bb) + disjunctive_facts(B, bb) + imported_facts(B, bb)
 import engine, inline
 
 TRIVIAL = re.compile(r'^(deref|deref_mut|as_ref|as_mut|borrow|borrow_mut|branch|from_residual|into|from|to_owned|clone|to_path_buf|to_string|new|'
@@ -22,6 +87,11 @@ class BodyOnly:
             from mir import Body
             self._c[n] = Body(self.F.bodies[n])
         return self._c[n]
+
+
+def errguard_io(c):
+    from errguard import IO_CALL
+    return bool(IO_CALL.match(c))
 
 
 def pure_query(B, t):
@@ -94,10 +164,12 @@ def returns_of(F, cg, fn, amap=None, prefix=(), depth=0):
 def collect(F, cg, fns):
     import panics
     panics.PHI = True
+    _CTX['F'], _CTX['cg'] = F, cg
     try:
         return _collect(F, cg, fns)
     finally:
         panics.PHI = False
+        _CTX['F'] = _CTX['cg'] = None
 
 
 def _collect(F, cg, fns):
@@ -114,12 +186,13 @@ def _collect(F, cg, fns):
                 continue
             res.setdefault('%s|call %s' % (fn, short), []).append(facts)
             # the operands handed to the callee (first three, structurally described; parameters of an inlined helper replaced by the actual arguments)
-            res.setdefault('%s|args %s' % (fn, short), []).append([inline.subst(skey_call(_B, t), _inl)])
+            full = '%s(%s)' % (short, ','.join(sdesc_operand(_B, a) for a in t['args']))          # every operand, not only the first three
+            res.setdefault('%s|args %s' % (fn, short), []).append([inline.subst(full, _inl)])
         B = cg.body(fn)
         for i, j, st in B.assigns():
             pl, rv = st['place'], st['rv']
             # stores through a reference (self.pos = .., file.data = .., entry.mode = ..): what is stored, where, under which facts
-            if pl['p'] and pl['p'][0]['k'] == 'deref' and any(e['k'] == 'field' for e in pl['p']):
+            if pl['p'] and any(e['k'] == 'field' for e in pl['p']) and (pl['p'][0]['k'] == 'deref' or 1 <= pl['l'] <= B.nargs):          # also `mut self` builders
                 facts = sorted({'%s=%s' % (d, v) for d, v in structural_facts(B, i) if v != 'Ok'})
                 res.setdefault('%s|store %s' % (fn, sdesc_place(B, pl)), []).append([_rv_desc(B, rv)] + facts)
             # struct literals of the crate's own types: the value of every field
@@ -130,6 +203,27 @@ def _collect(F, cg, fns):
                 res.setdefault('%s|result' % fn, []).append([v[6:]] + facts)
             else:
                 res.setdefault('%s|return %s' % (fn, v), []).append(facts)
+        # order of the effects: which mutating / OS-level call or destructor of a crate type is executed before which (dominance between their blocks)
+        eff = []
+        for i, t in B.calls():
+            c = (t.get('callee') or callee_of(t) or '')
+            short = c.split('::')[-1]
+            if TRIVIAL.match(short) and not c.startswith('<std::io::Error>::'):
+                continue
+            mut = any((op_local(a) is not None and B.local_ty(op_local(a)).startswith('&mut')) for a in t['args'])
+            if mut and not short.startswith(('next', 'fmt', 'write_fmt', 'write_str', 'push_str')) or errguard_io(c) or short in ('read_guard', 'write_guard', 'sync'):
+                eff.append((i, '%s(%s)' % (short, sdesc_operand(B, t['args'][0], 2) if t['args'] else '')))
+        for i in B.normal:
+            t = B.term(i)
+            if t['k'] == 'drop' and re.search(r'(sys::fs::memfs::|core::defer::)', t.get('ty', '')) and not t['place']['p']:
+                eff.append((i, 'drop<%s>' % re.sub(r"<.*$", '', t['ty'].split('::')[-1])))
+        pairs = set()
+        for a, la in eff:
+            for b, lb in eff:
+                if a != b and la != lb and B.dominates(a, b):
+                    pairs.add('%s < %s' % (la, lb))
+        if pairs:
+            res['%s|order' % fn] = [sorted(pairs)]
     for k in res:
         res[k] = sorted(res[k])
     return res
@@ -140,7 +234,8 @@ MV = '<sys::fs::memfs::vfs::Memfs as sys::fs::vfs::VirtualFileSystem>::'
 SD = '<sys::fs::stdfs::Stdfs>::'
 MEMFS_ALL = ('<sys::fs::memfs::',)
 FILE_IO = ('read', 'read_all', 'read_lines', 'write', 'write_all', 'write_lines', 'append', 'append_all', 'append_line', 'append_lines', '_clone_file', '_copy', 'mkfile', 'mkfile_m')
-LINK = ('readlink', 'readlink_abs', 'is_symlink', 'is_symlink_dir', 'is_symlink_file', 'is_file', 'is_dir', 'symlink', '_symlink', 'follow', 'link_to', 'from', 'entry', 'remove')
+LINK = ('readlink', 'readlink_abs', 'is_symlink', 'is_symlink_dir', 'is_symlink_file', 'is_file', 'is_dir', 'symlink', '_symlink', 'follow', 'link_to', 'from', 'entry', 'remove',
+        'remove_all', '_chmod', '_chown', 'chmod', 'chown', 'chmod_b', 'chown_b')          # remove / chmod / chown act on the link itself
 PERM = ('_chmod', '_chown', 'chmod', 'chown', 'chmod_b', 'chown_b', 'set_mode', 'mode', 'is_exec', 'is_readonly', 'uid', 'gid', 'owner', 'mkdir_m', 'mkfile_m', '_mkdir_m')
 LIST = ('paths', 'dirs', 'files', 'all_paths', 'all_dirs', 'all_files', 'entries', '_entries', '_clone_entries', 'entry_iter')
 
@@ -160,6 +255,8 @@ GROUP_PRED = {
     or (n.startswith(MEMFS_ALL) and not n.startswith('<sys::fs::memfs::file::')),
     'C13': lambda n: n.startswith(('<sys::fs::vfs::Vfs>::', '<sys::fs::vfs::Vfs as std::', '<sys::fs::entry::VfsEntry as std::')),
     'C03': lambda n: n.startswith((M_, MV, '<sys::fs::memfs::vfs::MemfsGuard', '<sys::fs::memfs::vfs::MemfsInner', '<sys::fs::memfs::entry::MemfsEntry>')),
+    'C04': lambda n: n.startswith(MEMFS_ALL),
+    'C05': lambda n: n in ('<sys::fs::memfs::vfs::Memfs>::_abs', '<sys::fs::stdfs::Stdfs>::abs', MV + 'abs'),
     'C06': lambda n: _backend(n) and _item(n) in FILE_IO,
     'C07': lambda n: n.startswith('<sys::fs::memfs::file::MemfsFile'),
     'C08': lambda n: n.startswith(('<sys::fs::entries::', '<sys::fs::entry_iter::', '<sys::fs::memfs::entry::MemfsEntryIter')) or (_backend(n) and _item(n) in LIST),
@@ -235,10 +332,22 @@ def site_guard(rep, F, cg, table, fns, rule='SITE-GUARD'):
             n += 1
             want, got = table.get(key), cur.get(key)
             site = key.split('|', 1)[1]
+            if site == 'order' and (want is None or got is None):
+                continue
             if want is None:
                 diffs.append('new site `%s` under %s' % (site, got))
             elif got is None:
                 diffs.append('site `%s` (frozen guards %s) no longer exists' % (site, want))
+            elif site == 'order':
+                # only inversions count: extraction, merging of exits or a new effect never turn `A before B` into `B before A`, swapping two statements does
+                def rev(p):
+                    return ' < '.join(reversed(p.split(' < ', 1)))
+                cur_pairs = set(got[0]) if got else set()
+                old_pairs = set(want[0]) if want else set()
+                # labels that occur at several sites give both directions in one tree: only pairs that are one-directional in both trees are compared
+                inv = sorted(p for p in old_pairs if rev(p) not in old_pairs and rev(p) in cur_pairs and p not in cur_pairs)
+                if inv:
+                    diffs.insert(0, 'effects now run in the opposite order: frozen %s' % inv[:4])
             elif want != got:
                 diffs.append('site `%s` is now reached under %s; frozen: %s' % (site, got, want))
         ti = b.get('trait_item') if b else None
